@@ -337,8 +337,9 @@ def g_record(scn, in_proj):
       ops.append({"kind": o["kind"], "ins": o["ins"], "outs": o["outs"], "sig": "%d:%s" % (po["code"], po["opts"])})
     sig = [x for x in in_proj["sigs"] if x["sub"] == si]
     pos = lambda lst, t: (lst.index(t) + 1) if t in lst else 0
-    siginpos = [pos(P["gins"], x[1]) for x in sig[0]["ins"]] if sig else list(range(1, len(P["gins"]) + 1))
-    sigoutpos = [pos(P["gouts"], x[1]) for x in sig[0]["outs"]] if sig else list(range(1, len(P["gouts"]) + 1))
+    # the entries of EVERY signature that exports this subgraph (several signature defs may refer to one subgraph), in table order
+    siginpos = [pos(P["gins"], x[1]) for sg_ in sig for x in sg_["ins"]] if sig else list(range(1, len(P["gins"]) + 1))
+    sigoutpos = [pos(P["gouts"], x[1]) for sg_ in sig for x in sg_["outs"]] if sig else list(range(1, len(P["gouts"]) + 1))
     G.append({
         "ops": ops, "trole": sub["trole"], "gins": sub["gins"], "gouts": sub["gouts"], "siginpos": siginpos, "sigoutpos": sigoutpos,
         "nm": [t["name"] for t in P["tensors"]],
@@ -356,8 +357,8 @@ def r_record(scn, in_proj, out_proj, obs=None):
     O = obs[si]
     P = out_proj["subs"][si]
     sig = [s for s in out_proj["sigs"] if s["sub"] == si]
-    sigin = [x[1] for x in sig[0]["ins"]] if sig else O["gins"]
-    sigout = [x[1] for x in sig[0]["outs"]] if sig else O["gouts"]
+    sigin = [x[1] for sg_ in sig for x in sg_["ins"]] if sig else O["gins"]
+    sigout = [x[1] for sg_ in sig for x in sg_["outs"]] if sig else O["gouts"]
     nt = len(P["tensors"])
     nt0 = O["nt0"]
     ops = []
